@@ -76,42 +76,49 @@ class Layout(Harness):
                 seps[str(g)] = ""
             elif k in ("ws1", "ws2"):
                 seps[str(g)] = SymStr([ctx.fresh_char("w%d_%d" % (g, i), wsr) for i in range(int(k[2]))])
-            elif k in ("cmt", "cmtws"):
-                c = ctx.fresh_char("c%d" % g)
-                ctx.assume(c.z != 42)
-                ctx.assume(c.z != 47)
+            elif k in ("cmt", "cmtws", "cmt2"):
+                # the inner characters are free: only the two-character terminator '*/' may not occur inside
+                inner = [ctx.fresh_char("c%d_%d" % (g, i)) for i in range(2 if k == "cmt2" else 1)]
+                if k == "cmt2":
+                    import z3
+                    ctx.assume(z3.Not(z3.And(inner[0].z == 42, inner[1].z == 47)))
                 if self.dialect in ("PVL", "ISIS"):
                     from .c15 import spec_allowed
-                    a = spec_allowed("PVL", c.z)
-                    if not isinstance(a, bool):
-                        ctx.assume(a)
-                body = SymStr(["/", "*", c, "*", "/"])
-                if k == "cmtws" or not optional_gap(toks[g], toks[g + 1]):
+                    for c in inner:
+                        a = spec_allowed("PVL", c.z)
+                        if not isinstance(a, bool):
+                            ctx.assume(a)
+                body = SymStr(["/", "*"] + inner + ["*", "/"])
+                if k in ("cmtws", "cmt2") or not optional_gap(toks[g], toks[g + 1]):
                     w = ctx.fresh_char("w%d" % g, wsr)
                     body = SymStr([w]) + body + SymStr([ctx.fresh_char("v%d" % g, wsr)])
                 seps[str(g)] = body
-            elif k == "hash":
-                c = ctx.fresh_char("h%d" % g)
-                ctx.assume(c.z != 10)
-                if self.dialect in ("PVL", "ISIS"):
-                    from .c15 import spec_allowed
-                    a = spec_allowed("PVL", c.z)
-                    if not isinstance(a, bool):
-                        ctx.assume(a)
-                seps[str(g)] = SymStr([ctx.fresh_char("w%d" % g, wsr), "#", c, "\n"])
+            elif k in ("hash", "hash2"):
+                inner = [ctx.fresh_char("h%d_%d" % (g, i)) for i in range(2 if k == "hash2" else 1)]
+                for c in inner:
+                    ctx.assume(c.z != 10)
+                    if self.dialect in ("PVL", "ISIS"):
+                        from .c15 import spec_allowed
+                        a = spec_allowed("PVL", c.z)
+                        if not isinstance(a, bool):
+                            ctx.assume(a)
+                seps[str(g)] = SymStr([ctx.fresh_char("w%d" % g, wsr), "#"] + inner + ["\n"])
         return {"seps": seps}
 
     def known(self, L, inp):
         """D37: the default loader removes 'dash + line end' from the whole text before lexing, also inside a
         '#' comment, so a '#' comment whose last character is a dash swallows the following line"""
-        if self.dialect != "Omni" or self.kind != "hash":
+        if self.dialect != "Omni" or self.kind not in ("hash", "hash2"):
             return ()
         from ..core import zor, ch_eq
         conds = []
+        from ..core import zand, ch_in, chars_to_ranges
+        le = chars_to_ranges("\n\r\f")
         for g, sep in inp["seps"].items():
             es = list(sep) if isinstance(sep, str) else list(SymStr.of(sep).cs)
-            if len(es) == 4:
-                conds.append(ch_eq(es[2], "-"))
+            # a dash followed by a line end (LF, CR or FF) anywhere in the comment, its closing line end included
+            for x, y in zip(es, es[1:]):
+                conds.append(zand([ch_eq(x, "-"), ch_in(y, le)]))
         return (("D37", zor(conds)),)
 
     def prop_fn(self, L, inp):
@@ -154,7 +161,7 @@ def obligations(tier):
     obs = []
     quick = tier == "quick"
     for d, labels in LABELS_BY_DIALECT.items():
-        kinds = ["ws0", "ws1", "ws2", "cmt", "cmtws"] + (["hash"] if d in ("ISIS", "Omni") else [])
+        kinds = ["ws0", "ws1", "ws2", "cmt", "cmtws", "cmt2"] + (["hash", "hash2"] if d in ("ISIS", "Omni") else [])
         for lab in labels:
             n = len(LABELS[lab])
             for at in range(0, n - 1):
@@ -163,6 +170,8 @@ def obligations(tier):
                     win = {"ws0": 3, "ws1": 2, "cmt": 2}.get(k, 1) + (0 if quick else 1)
                     if win > 1 and at % 2 and quick:
                         continue
+                    if quick and ((k == "cmt2" and at % 5) or (k in ("cmtws", "hash2") and at % 2)):
+                        continue          # the two-character comment bodies are the expensive kinds
                     obs.append(Layout(dialect=d, label=lab, at=at, win=win, kind=k))
     return obs
 
